@@ -201,6 +201,9 @@ pub fn read_pattern<R: Read>(r: &mut R, sizes: &[usize], log: Option<&Log>, max_
         let n = if sizes.is_empty() { maxn } else { sizes[k % sizes.len()] };
         k += 1;
         calls += 1;
+        if let Some(l) = log {
+            l.push(json!({"op": "ReadCall", "n": n, "ret": 0}));
+        }
         let res = r.read(&mut buf[..n]);
         if let Some(l) = log {
             match &res {
@@ -243,4 +246,22 @@ pub fn read_pattern<R: Read>(r: &mut R, sizes: &[usize], log: Option<&Log>, max_
         }
     }
     ReadOutcome { bytes: out, err, zero_ok, calls, after_eof_ok }
+}
+
+/// Line server used by the group D binaries: one JSON request per stdin line, one JSON result per stdout line.
+pub fn serve(mut f: impl FnMut(&str) -> Value) {
+    use std::io::BufRead;
+    install_panic_hook();
+    let stdin = std::io::stdin();
+    let out = std::io::stdout();
+    let mut out = std::io::BufWriter::new(out.lock());
+    for line in stdin.lock().lines() {
+        let line = line.unwrap();
+        if line.trim().is_empty() {
+            continue;
+        }
+        let v = f(&line);
+        writeln!(out, "{}", v).unwrap();
+        out.flush().unwrap();
+    }
 }
